@@ -55,6 +55,8 @@ type Rewrite struct {
 	// reloads can overlap; the later content must win and stay
 	Filler   int    `json:"filler,omitempty"`
 	BigLines []Line `json:"biglines,omitempty"`
+	// Target6 (dual-stack cases): the rewrite is of the DHCPv6 instance's file
+	Target6 bool `json:"target6,omitempty"`
 }
 
 // fillerText renders n generated entries (hardware addresses no probe uses)
@@ -913,7 +915,11 @@ func execDual(c Case) (res core.Result) {
 	if need > 0 && watchers.Load()+need > int64(core.EnvInt("VERIF_MAX_WATCHERS", 40)) {
 		c.Refresh4, c.Refresh6 = false, false
 	}
-	p4, p6 := newFile(t4), newFile(t6)
+	if len(padded(t4)) != padTo || len(padded(t6)) != padTo {
+		// not rewritable in place at a fixed length (a replayed case with a very long line)
+		c.Rewrites = nil
+	}
+	p4, p6 := newFile(string(padded(t4))), newFile(string(padded(t6)))
 	args4, args6 := []string{p4}, []string{p6}
 	if c.Refresh4 {
 		args4 = append(args4, "autorefresh")
@@ -956,6 +962,63 @@ func execDual(c Case) (res core.Result) {
 		v.Message = fmt.Sprintf("dual-stack (v6 set up first: %v): DHCPv6 handler does not serve its own file: %s", c.V6First, v.Message)
 		res.Viol = v
 		return
+	}
+	// rewrites of either file while both instances are up: each instance reloads its own file
+	// with its own rules, and the other one is not affected
+	ri4 := &refreshInst{v6: false, h4: h4, path: p4}
+	ri6 := &refreshInst{v6: true, h6: h6, path: p6}
+	cur4, cur6 := m4, m6
+	for i, rw := range c.Rewrites {
+		ri, cur, other, otherCur, on := ri4, cur4, ri6, cur6, c.Refresh4
+		if rw.Target6 {
+			ri, cur, other, otherCur, on = ri6, cur6, ri4, cur4, c.Refresh6
+		}
+		if !on {
+			continue
+		}
+		ntext := Render(rw.Lines, false)
+		data := padded(ntext)
+		if len(data) != padTo {
+			continue
+		}
+		if err := writeInPlace(ri.path, data); err != nil {
+			res.Skipped = "io"
+			return
+		}
+		next, nerr := ParseModel(string(data), rw.Target6)
+		if nerr != nil {
+			if v := ri.holdSteady(cur, nil, 100*time.Millisecond); v != nil {
+				v.Signature = "C10/dualstack/malformed-update-changes-mapping"
+				v.Message = fmt.Sprintf("dual-stack, rewrite %d of the DHCPv%s file (%v): %s", i, map[bool]string{false: "4", true: "6"}[rw.Target6], nerr, v.Message)
+				res.Viol = v
+				return
+			}
+			continue
+		}
+		ok, v := ri.awaitSwitch(cur, next, refreshDeadline)
+		if v == nil && !ok {
+			v = core.Violate("C10/dualstack/well-formed-update-never-applied", "%v after a well-formed update the old mapping is still served", refreshDeadline)
+		}
+		if v == nil {
+			v = other.holdSteady(otherCur, nil, 10*time.Millisecond)
+			if v != nil {
+				v.Signature = "C10/dualstack/update-changes-other-instance"
+			}
+		}
+		if v != nil {
+			v.Message = fmt.Sprintf("dual-stack (v6 set up first: %v), rewrite %d of the DHCPv%s file: %s", c.V6First, i, map[bool]string{false: "4", true: "6"}[rw.Target6], v.Message)
+			if !strings.HasPrefix(v.Signature, "C10/dualstack/") {
+				v.Signature = "C10/dualstack/" + strings.TrimPrefix(v.Signature, "C10/")
+			}
+			res.Viol = v
+			return
+		}
+		if rw.Target6 {
+			cur6 = next
+		} else {
+			cur4 = next
+		}
+		res.Classes = append(res.Classes, "dual-refresh")
 	}
 	return
 }
